@@ -117,9 +117,12 @@ def specFlush (rb : RB) (old : GridTerm) (lines cols : Nat) (impl : String) : St
     -- the hypothesis of `flush_spec` minus the CHAR-width clause is C03's invariant: it must hold of every buffer a
     -- drawing program produces (tested here on every flush; proved in C03)
     if !flushWFPb (fun _ => true) rb then "the buffer is not well-formed (FlushWFP fails): C03 invariant broken?"
-    -- the specification asks nothing of a terminal narrower than the buffer (hypothesis `rb.cols ≤ t.cols` of flush_spec)
-    else if rb.cols > old.cols then ""
     else if field ts "r" != some "ok" then "flush did not complete"
+    -- the hypothesis of `flush_spec_screen`: the content of the buffer lies within the terminal's columns (the grid is
+    -- unbounded downwards).  A buffer larger than the terminal is fine as long as what it holds fits; when it does not
+    -- (`C04_anysize_counterexample_width`: the flush does not clip) only completion and the reset are claimed.
+    else if !contentWithinB rb old.cols rb.lines then
+      (if dump != showRB (resetExpected rb) then "buffer not reset after flush" else "")
     else match (field ts "grid").bind parseGrid with
       | none => "unparsable grid"
       | some g =>
@@ -199,9 +202,12 @@ def specMFlush (rb : RB) (old : MockTerm) (impl : String) : String :=
   | [head, dump] =>
     let ts := toks head
     if !flushWFPb (fun _ => true) rb then "the buffer is not well-formed (FlushWFP fails): C03 invariant broken?"
-    -- the mock terminal clamps positions to its screen: nothing is asked when the buffer does not fit
-    else if rb.cols > old.cols ∨ rb.lines > old.lines then ""
     else if field ts "r" != some "ok" then "flush did not complete"
+    -- the mock terminal is a screen of `old.lines` x `old.cols` (positions are clamped to it): the hypothesis of
+    -- `flush_spec_screen` is that the content of the buffer lies within it; otherwise only completion and the reset
+    -- are claimed
+    else if !contentWithinB rb old.cols old.lines then
+      (if dump != showRB (resetExpected rb) then "buffer not reset after flush" else "")
     else match (field ts "grid").bind parseMGrid with
       | none => "unparsable grid"
       | some g =>
